@@ -123,42 +123,8 @@ def check_options_table(chk, ix):
             chk.fail(Finding("Z2", "behave.configuration:OPTIONS", "%s dest=%s has no positive option" % ("/".join(fixed), d),
                              "negative option %s writes dest %r, which no positive option (and so no config-file key) shares: a value "
                              "from the config file could never be overridden by it" % ("/".join(fixed), d), file=mod.relpath, line=1))
-    # readers: handled actions
-    schema_actions = set()
-    excluded_actions = ix.fold(mod.consts["CONFIGFILE_EXCLUDED_ACTIONS"], mod) if "CONFIGFILE_EXCLUDED_ACTIONS" in mod.consts else ()
-    excluded_opts = ix.fold(mod.consts["CONFIGFILE_EXCLUDED_OPTIONS"], mod) if "CONFIGFILE_EXCLUDED_OPTIONS" in mod.consts else ()
-    for fixed, kws in opts:
-        action = kws.get("action", "store")
-        neg = any(w.startswith("--no-") for w in fixed) or action == "store_false"
-        d = _dest(fixed, kws)
-        if neg or not d or d in excluded_opts:
-            continue
-        schema_actions.add(action)
-    schema_actions -= set(excluded_actions)
-    handled = {}
-    for rn in ("read_configparser", "read_toml_config"):
-        f = ix.func("behave.configuration:" + rn)
-        acts = set()
-        for n in ast.walk(f.node):
-            if isinstance(n, ast.Compare) and unparse(n.left) == "action":
-                for c in n.comparators:
-                    try:
-                        v = ix.fold(c, mod)
-                    except NotConst:
-                        continue
-                    if isinstance(v, str):
-                        acts.add(v)
-                    elif isinstance(v, (tuple, list, set, frozenset)):
-                        acts.update(x for x in v if isinstance(x, str))
-        handled[rn] = acts
-        chk.instance("Z2")
-        missing = sorted(a for a in schema_actions if a not in acts)
-        if missing:
-            _fail(chk, "Z2", f, "%s does not handle %s" % (rn, ",".join(missing)),
-                  "%s has no branch for option action(s) %s that occur in the config-file schema: such options are rejected or ignored "
-                  "in this file format" % (rn, missing))
-        else:
-            chk.ok("Z2", {"reader": rn, "handles": sorted(acts), "schema_actions": sorted(schema_actions)}, nontrivial_key=rn)
+    # that both config-file readers handle every action kind of the schema (store / store_true / append) is decided by
+    # Z9 (check_readers_by_evaluation): the readers are evaluated on one option of every kind
 
 
 def check_outfiles_coupling(chk, ix):
